@@ -198,7 +198,7 @@ Proof. split; [|split]; vm_compute; reflexivity. Qed.
 Example C09_example_stratified : stratified ex_F /\ ex_res <> None.
 Proof.
   split.
-  - apply (stratb_sound ex_F [0; 0; 0; 0; 0; 1; 1; 1; 1; 0]). reflexivity.
+  - apply (stratb_sound ex_F [0; 0; 0; 0; 1; 1; 1; 1; 1; 0]). reflexivity.
   - discriminate.
 Qed.
 
